@@ -50,6 +50,38 @@ def _quadrature(k, n, G):
     return probs
 
 
+def _long_streams(tier, seed):
+    """seeded frequencies on streams much longer than the reservoir (n > 22 k, where hybrid samplers switch algorithms):
+    every position must be retained with frequency k/n within 6 standard errors (a false alarm has probability < 1e-7)"""
+    import random as pyrandom
+    from ixai.storage import UniformReservoirStorage
+    runs = 4000 if tier == 'quick' else 40000
+    fails, evals = [], 0
+    cases = [(1, 30), (2, 60)]
+    out = []
+    for k, n in cases:
+        pyrandom.seed(seed * 1000 + k)
+        cnt = [0] * n
+        for _ in range(runs):
+            st = UniformReservoirStorage(size=k, store_targets=False)
+            for t in range(n):
+                st.update({'t': t})
+            for x in st.get_data()[0]:
+                cnt[x['t']] += 1
+        evals += runs
+        p = k / n
+        se = math.sqrt(p * (1 - p) / runs)
+        worst = max(range(n), key=lambda t: abs(cnt[t] / runs - p))
+        z = (cnt[worst] / runs - p) / se
+        out.append({'k': k, 'n': n, 'runs': runs, 'worst_position': worst, 'z': round(z, 2)})
+        if abs(z) > 6:
+            fails.append({'key': 'uniformity', 'summary': f'k={k} n={n}: arrival {worst} retained in {cnt[worst]} of {runs} seeded runs, '
+                          f'expected k/n = {p:.4f} (z = {z:.1f})', 'k': k, 'n': n, 'observed': {'count': cnt[worst], 'runs': runs, 'z': z}})
+    return {'name': 'retention_frequency_long_streams', 'evaluations': evals, 'distinct_nontrivial': len(cases),
+            'rule': 'seeded Monte-Carlo frequencies of every arrival position on streams with n = 30 k (beyond 22 k); 6 standard errors',
+            'bound': f'{runs} runs per case, k <= 2, n <= 60', 'cases': out, 'failures': fails}
+
+
 def BOUNDED(tier, seed):
     fails = []
     cases = [(1, 2, 24), (1, 3, 8), (2, 3, 16), (2, 4, 6), (3, 4, 8)] if tier == 'quick' else \
@@ -78,7 +110,8 @@ def BOUNDED(tier, seed):
         if any(abs(p - exp) > tol for p in probs):
             fails.append({'key': 'uniformity', 'summary': f'k={k} n={n}: retention probabilities {[round(p, 3) for p in probs]} differ from k/n={exp:.3f}',
                           'k': k, 'n': n, 'grid': G, 'observed': {'probs': probs, 'expected': exp, 'tolerance': tol}})
-    return [{'name': 'inclusion_probability_quadrature', 'evaluations': evals, 'distinct_nontrivial': len(cases),
+    long_runs = _long_streams(tier, seed)
+    return [long_runs, {'name': 'inclusion_probability_quadrature', 'evaluations': evals, 'distinct_nontrivial': len(cases),
              'rule': 'midpoint quadrature (G points per random.random draw) x exact enumeration of slots through the real class; '
                      'cases (k,n,G) = ' + str(cases) + '; tolerance 0.07 (quick, coarse grids) / 0.035 (thorough); distinct = (k, n)',
              'bound': 'k <= 3, n <= 4', 'cases': out, 'not_explored': skipped, 'failures': fails}]
